@@ -8,10 +8,11 @@
 (* expectation is the specification's (value-level identity for Duplicate).  *)
 (***************************************************************************)
 EXTENDS PatchImpl, TLC, Json
-CONSTANTS Mode, Emit, CircLimit, WithLimitCases
+CONSTANTS Mode, Emit, CircLimit, WithLimitCases, ScaleSizes
 VARIABLES c, phase
 
 N1 == VNum(N_one)
+FoldUp(s) == [i \in DOMAIN s |-> IF s[i] \in 97..122 THEN s[i] - 32 ELSE s[i]]
 MaxOf(S) == CHOOSE x \in S : \A y \in S : y <= x
 RemB(a0, m0) == a0 - m0 * (a0 \div m0)
 RECURSIVE DeepTrail(_)            \* [[...[[],1]...,1],1]: every level has a trailing sibling
@@ -51,9 +52,21 @@ SortCases == {Desc(n) : n \in {2, 9, 17, 255, 256, 257, 300, 520, 1000}} \cup {S
 \* every ordered pair and triple of them
 Words == {<<88, 121, 122>>, <<120, 121, 97>>, <<65, 97>>, <<97, 97, 98>>, <<99, 111, 110, 116, 101, 110, 116, 45, 76, 101, 110, 103, 116, 104>>, <<67, 111, 110, 116, 101, 110, 116, 45, 84, 121, 112, 101>>, <<97, 98>>, <<65, 66>>, <<97, 66>>, <<97>>, <<97, 98, 99>>, <<65, 66, 100>>, <<120, 89, 98>>}
 WordCases == {<<x, y>> : x, y \in Words} \cup {<<x, y, z>> : x, y, z \in Words}
-Init == phase = 0 /\ c \in (IF Mode = "dup" THEN DupCases ELSE SortCases \cup WordCases)
+\* key lookups with names of every length 1..70 and around 128 ... 1024: the member with the longer key (name + one byte) stands in front of the
+\* member with the exact key; queries: the name, its upper-case form, a name one byte longer / shorter.  Expected: the first member whose key is
+\* equal (KeyEq of JsonValue: byte-equal, or equal after ASCII folding)
+KeyLens == (1..70) \cup {127, 128, 129, 255, 256, 257, 511, 512, 513, 1023, 1024, 1025}
+KName(L, ch) == [i \in 1..L |-> IF i = L THEN ch ELSE 97 + RemB(i, 3)]
+KeyCases == UNION {{ <<<<KName(L, 113) \o <<120>>, KName(L, 113), <<122>>>>, q>> : q \in {KName(L, 113), KName(L, 81), KName(L, 113) \o <<121>>, KName(L, 113) \o <<120>>, SubSeq(KName(L, 113), 1, L - 1), FoldUp(KName(L, 113))} } : L \in KeyLens}
+FirstMatch(keys, q, cs) == IF \E i \in DOMAIN keys : KeyEq(keys[i], q, cs) THEN CHOOSE i \in DOMAIN keys : KeyEq(keys[i], q, cs) /\ \A j \in DOMAIN keys : KeyEq(keys[j], q, cs) => i <= j ELSE 0
+Init == phase = 0 /\ c \in (IF Mode = "dup" THEN DupCases ELSE IF Mode = "keys" THEN KeyCases ELSE SortCases \cup WordCases)
 Next == /\ phase = 0 /\ phase' = 1 /\ c' = c
-        /\ IF Mode = "dup"
+        /\ IF Mode = "keys" THEN Emit => (PrintT(ToJson(<<"Q", c[1], c[2], TRUE, FirstMatch(c[1], c[2], TRUE)>>)) /\ PrintT(ToJson(<<"Q", c[1], c[2], FALSE, FirstMatch(c[1], c[2], FALSE)>>)))
+           ELSE IF Mode = "dup"
            THEN Emit => PrintT(ToJson(<<"D", JV(c), TreeHeight(c) > CircLimit>>))
-           ELSE Emit => (PrintT(ToJson(<<"S", c, TRUE>>)) /\ PrintT(ToJson(<<"S", c, FALSE>>)))
+           ELSE Emit => (PrintT(ToJson(<<"S", c, TRUE>>)) /\ PrintT(ToJson(<<"S", c, FALSE>>))
+                         \* scale directives: n members whose keys are "k" and the 7 digits of (i * 11) mod n (case of the "k" alternating for the folded variant);
+                         \* the driver builds them, the verdict is the one of SortVerdict (MC_UtilCheck), evaluated by the driver's own comparison, which the
+                         \* recorded small and medium cases validate against TLC
+                         /\ (c = <<<<107>>, <<107>>, <<107>>>> => \A n \in ScaleSizes : PrintT(ToJson(<<"Z", n, 11>>))))
 =============================================================================
